@@ -19,8 +19,9 @@
 (* P (parameters): [ver, fmt, asz, le, mil, maxops, dis, lbase, lrange].    *)
 (* The writer always emits opcode_base 13 with the standard lengths.       *)
 (* Integers here are TLC integers: the bounded models keep every value     *)
-(* below 2^31; 64-bit values are covered by trace validation               *)
-(* (LineWriterTrace, on byte tuples).                                      *)
+(* below 2^31, except line numbers in the `lines` model (LineSplit /        *)
+(* RowIns64 on byte tuples: the 64-bit boundary set); other 64-bit values   *)
+(* are covered by trace validation (LineWriterTrace, on byte tuples).      *)
 (***************************************************************************)
 EXTENDS LineSM
 
@@ -102,6 +103,50 @@ SelectRefines(P, dline, dop, opi0) ==
         a   == StdRun(H, AsList(pre \o Select(P, dline, dop)))
         b   == StdRun(H, AsList(pre \o << <<"L", dline>>, <<"P", dop>>, <<"Y", 0>> >>))
     IN a.wf /\ b.wf /\ a.rows = b.rows /\ Len(a.rows) = 1
+
+(*------------------------------------------------------------------------*)
+(* Line advances that do not fit an i64 (line numbers of 2^63 or more):    *)
+(* generate_row first emits DW_LNS_advance_line(i64::MAX) / (i64::MIN)     *)
+(* until the rest fits, as coded (gimli 19caef6).  On byte tuples.         *)
+(* LineSplit(prev, cur) = <<extras, residual>>: extras a sequence of       *)
+(* <<"L64", operand>>, residual the signed rest (BV8).                     *)
+I64MaxBV == <<255, 255, 255, 255, 255, 255, 255, 127>>
+I64MinBV == <<0, 0, 0, 0, 0, 0, 0, 128>>
+RECURSIVE LineSplitFrom(_, _, _)
+LineSplitFrom(prev, cur, acc) ==
+    IF ULe(prev, cur) THEN
+        LET d == Sub(cur, prev) IN
+        IF ~IsNeg(d) THEN <<acc, d>>                                   \* fits i64
+        ELSE LineSplitFrom(TLCEval(Add(prev, I64MaxBV)), cur, TLCEval(Append(acc, <<"L64", I64MaxBV>>)))
+    ELSE
+        LET dec == Sub(prev, cur) IN
+        IF ULe(dec, I64MaxBV) THEN <<acc, Neg(dec)>>
+        ELSE LineSplitFrom(TLCEval(Sub(prev, I64MinBV)), cur, TLCEval(Append(acc, <<"L64", I64MinBV>>)))
+LineSplit(prev, cur) == LineSplitFrom(prev, cur, <<>>)
+SmallInt(v) == v = SExt(Trunc(v, 4), 8) /\ (IF IsNeg(v) THEN ToInt(v) > 0 - 1073741824 ELSE ToInt(v) < 1073741824)
+(* the instructions of one row whose line goes prev -> cur (64-bit) with   *)
+(* operation advance dop: a residual that is not small cannot be a special *)
+(* opcode, so it is an advance_line and the rest is Select with dline = 0  *)
+RowIns64(P, prev, cur, dop) ==
+    LET sp == LineSplit(prev, cur) IN
+    sp[1] \o (IF SmallInt(sp[2]) THEN Select(P, ToInt(sp[2]), dop)
+              ELSE << <<"L64", sp[2]>> >> \o Select(P, 0, dop))
+(* the reader's line register after these advances (LineSM!LineAdvance, as  *)
+(* coded): must be cur exactly                                             *)
+RECURSIVE ApplyLineIns(_, _, _, _)
+ApplyLineIns(P, line, is, k) ==
+    IF k > Len(is) THEN line
+    ELSE LET i == is[k]
+             inc == IF i[1] = "L64" THEN i[2] ELSE FromInt(Eff(P, i).dl, 8)
+         IN ApplyLineIns(P, TLCEval(LineAdvance(line, inc)), is, k + 1)
+LineSplitCorrect(P, prev, cur, dop) == ApplyLineIns(P, prev, RowIns64(P, prev, cur, dop), 1) = cur
+ToIns64(i) == IF i[1] = "L64" THEN IV("advance_line", i[2]) ELSE ToIns(i)
+AsList64(is) == [list |-> [k \in 1..Len(is) |-> [ins |-> ToIns64(is[k]), n |-> 1]], ok |-> TRUE]
+(* the form in which the harness reports instructions with 64-bit operands *)
+WideIns(i) == CASE i[1] \in {"P", "F", "C", "I", "A", "D"} -> <<i[1], Nat8(i[2])>>
+                [] i[1] = "L" -> <<"L", FromInt(i[2], 8)>>
+                [] i[1] = "L64" -> <<"L", i[2]>>
+                [] OTHER -> i
 
 (*------------------------------------------------------------------------*)
 (* Builder machine.  Row fields: off (address_offset), opi, file (0-based  *)
